@@ -5,9 +5,10 @@ operators, static reference graph. See DESIGN.md section 3 (E1).
 program = {"pkg": str, "modules": ["a"] | ["a","b"], "defs": [def, ...]}   (defs in definition order)
 def     = {"k":"var","mod","name","vtype":"int|list|dict|str","value"}
         | {"k":"fn","mod","name","memento":bool,"version":None|str,"cluster":None|"c",
-           "pdef":None|int,"kwdef":None|int,"base":expr,"body":expr}
+           "pdef":None|int,"kwdef":None|int,"fdef":None|name (parameter fn=<that function>, evaluated at definition time),
+           "base":expr,"body":expr}
         | {"k":"alias","mod","name","target"} | {"k":"wrapper","mod","name","target"}
-expr    = {"e":"lit","v"} {"e":"x"} {"e":"pk"} {"e":"pkw"} {"e":"glob","n"} {"e":"add","a","b"} {"e":"mul","a","b"}
+expr    = {"e":"lit","v"} {"e":"x"} {"e":"pk"} {"e":"pkw"} {"e":"pfn"} (calls the default-parameter function) {"e":"glob","n"} {"e":"add","a","b"} {"e":"mul","a","b"}
         | {"e":"inset","x","s":[...]} {"e":"tupidx","t":[...],"i"} {"e":"lam","c","x"} {"e":"inner","c","d","x"}
         | {"e":"comp","c","x"} {"e":"call","f"} {"e":"hidden","f","via":"globals|sysmod"}
 Every call passes x-1; every function returns `base` when x <= 0, so execution is finite.
@@ -77,10 +78,13 @@ def _rexpr(prog, fn, e, inners):
         return "k" if fn.get("pdef") is not None else "0"
     if t == "pkw":
         return "kw" if fn.get("kwdef") is not None else "0"
+    if t == "pfn":
+        return "fn(x - 1)" if fn.get("fdef") else "0"
     if t == "glob":
         g = find(prog, e["n"])
         r = _ref(prog, mod, e["n"])
-        return {"int": r, "list": "sum(%s)" % r, "dict": "%s[\"k\"]" % r, "str": "len(%s)" % r}[g["vtype"]]
+        return {"int": r, "list": "sum(%s)" % r, "dict": "%s[\"k\"]" % r, "str": "len(%s)" % r,
+                "dictset": "sum(%s.values())" % r}[g["vtype"]]
     if t in ("add", "mul"):
         return "(%s %s %s)" % (_rexpr(prog, fn, e["a"], inners), "+" if t == "add" else "*", _rexpr(prog, fn, e["b"], inners))
     if t == "inset":
@@ -118,6 +122,10 @@ def _rexpr(prog, fn, e, inners):
 def render_def(prog, d):
     """Source text of one top-level definition (also used as a notebook cell)."""
     if d["k"] == "var":
+        if d["vtype"] == "dictset":
+            # a dict whose insertion order follows the iteration order of a set of strings (hash-seed dependent);
+            # its *value* (dict equality) is the same in every process
+            return "%s = {k_: len(k_) for k_ in {%s}}\n" % (d["name"], ", ".join(_lit(v) for v in d["value"]))
         return "%s = %s\n" % (d["name"], _lit(d["value"]))
     if d["k"] == "alias":
         return "%s = %s\n" % (d["name"], d["target"])
@@ -134,6 +142,8 @@ def render_def(prog, d):
     params = "x"
     if d.get("pdef") is not None:
         params += ", k=%s" % _lit(d["pdef"])
+    if d.get("fdef"):
+        params += ", fn=%s" % _ref(prog, d["mod"], d["fdef"])
     if d.get("kwdef") is not None:
         params += ", *, kw=%s" % _lit(d["kwdef"])
     lines.append("def %s(%s):\n" % (d["name"], params))
@@ -147,13 +157,29 @@ def render_def(prog, d):
     return "".join(lines)
 
 
+def fix_order(prog, defs):
+    """a function whose parameter default names another function is defined after that function (same module or not)"""
+    defs = list(defs)
+    for _ in range(len(defs)):
+        moved = False
+        names = [d["name"] for d in defs]
+        for i, d in enumerate(defs):
+            if d["k"] == "fn" and d.get("fdef") and names.index(d["fdef"]) > i:
+                defs.insert(names.index(d["fdef"]), defs.pop(i))
+                moved = True
+                break
+        if not moved:
+            break
+    return defs
+
+
 HEADER = "import sys\nimport functools\nimport verif_rt\nfrom verif_rt import mf\n%s\n\ndef _verif_wrap(fn):\n    @functools.wraps(fn)\n    def w(*_verif_a, **_verif_k):\n        return fn(*_verif_a, **_verif_k)\n    return w\n\n"
 
 
 def render_files(prog, order=None):
     """{relative path: text}. `order`: optional permutation of def indices (definition order)."""
     files = {"%s/__init__.py" % prog["pkg"]: ""}
-    defs = prog["defs"] if order is None else [prog["defs"][i] for i in order]
+    defs = fix_order(prog, prog["defs"] if order is None else [prog["defs"][i] for i in order])
     for mod in prog["modules"]:
         others = [m for m in prog["modules"] if m != mod]
         imports = "".join("from . import %s\n" % o for o in others)
@@ -177,6 +203,8 @@ def edges(prog, name, include_hidden=True):
     if d["k"] == "var":
         return [], []
     cs, vs = [], []
+    if d.get("fdef"):
+        cs.append(d["fdef"])
     for e in exprs_of(d):
         if e["e"] == "call" or (e["e"] == "hidden" and include_hidden):
             cs.append(e["f"])
@@ -336,6 +364,8 @@ def apply_edit(prog, edit, tag):
             d["value"] = d["value"] + [delta]
         elif d["vtype"] == "dict":
             d["value"] = dict(d["value"], k=d["value"]["k"] + delta)
+        elif d["vtype"] == "dictset":
+            d["value"] = d["value"] + ["n%d%s" % (len(d["value"]), "x" * delta)]
         else:
             d["value"] = d["value"] + "y"
     elif kind == "varcopy":
@@ -385,7 +415,7 @@ def apply_edit(prog, edit, tag):
 # ------------------------------------------------------------------------------------------
 
 def program_strategy(max_fns=6, two_modules=True, allow_hidden=True, allow_explicit=True, allow_cluster=True,
-                     str_sets=True, allow_hidden_plain=False, allow_alias=True, explicit_f0=False, value_heavy=False):
+                     str_sets=True, allow_hidden_plain=False, allow_alias=True, explicit_f0=False, value_heavy=False, allow_fdef=False, allow_dictset=False):
     from hypothesis import strategies as st
 
     small = st.integers(0, 9)
@@ -400,7 +430,10 @@ def program_strategy(max_fns=6, two_modules=True, allow_hidden=True, allow_expli
         small_v = st.integers(0, 1) if value_heavy else (st.integers(0, 2) if tiny else small)
         for i in range(nv):
             vt = "int" if value_heavy else draw(st.sampled_from(["int", "int", "int", "list", "dict", "str"] if tiny else ["int", "int", "list", "dict", "str"]))
+            if allow_dictset and not value_heavy and draw(st.integers(0, 3)) == 0:
+                vt = "dictset"
             val = {"int": draw(small_v), "list": draw(st.lists(small_v, max_size=3)), "dict": {"k": draw(small_v), "z": 1},
+                   "dictset": draw(st.lists(st.sampled_from(["a", "bb", "ccc", "dddd", "e", "zz9", "q"]), min_size=2, max_size=5, unique=True)),
                    "str": draw(st.text(alphabet="ab", max_size=3))}[vt]
             defs.append({"k": "var", "mod": draw(st.sampled_from(modules)), "name": "G%d" % i, "vtype": vt, "value": val})
         fnames = ["f%d" % i for i in range(nf)]
@@ -413,8 +446,10 @@ def program_strategy(max_fns=6, two_modules=True, allow_hidden=True, allow_expli
         call_targets = fnames + [x["name"] for x in extra]
         varnames = [d["name"] for d in defs]
 
-        def leaf(has_k, has_kw):
+        def leaf(has_k, has_kw, has_fn=False):
             opts = [st.builds(lambda v: {"e": "lit", "v": v}, small), st.just({"e": "x"})]
+            if has_fn:
+                opts.append(st.just({"e": "pfn"}))
             if has_k:
                 opts.append(st.just({"e": "pk"}))
             if has_kw:
@@ -447,12 +482,19 @@ def program_strategy(max_fns=6, two_modules=True, allow_hidden=True, allow_expli
                 return {"e": "inner", "c": draw(small), "d": draw(small), "x": simple(has_k, has_kw, depth + 1)}
             return {"e": "comp", "c": draw(small), "x": simple(has_k, has_kw, depth + 1)}
 
+        with_fdef = [n for n in fnames if allow_fdef and draw(st.integers(0, 4)) == 0]
+        ffdef = {}
+        for n in with_fdef:
+            # same module: the default is evaluated while the module is being imported
+            cands = [t for t in fnames if t not in with_fdef and fmods[t] == fmods[n]]
+            if cands:
+                ffdef[n] = draw(st.sampled_from(cands))
         for n in fnames:
             memento = fmem[n]
             has_k = draw(st.integers(0, 2)) == 0
             has_kw = draw(st.integers(0, 3)) == 0
             d = {"k": "fn", "mod": fmods[n], "name": n, "memento": memento, "version": None, "cluster": None,
-                 "pdef": draw(small) if has_k else None, "kwdef": draw(small) if has_kw else None}
+                 "pdef": draw(small) if has_k else None, "kwdef": draw(small) if has_kw else None, "fdef": ffdef.get(n)}
             if memento and allow_explicit and (n != "f0" or explicit_f0) and draw(st.integers(0, 4)) == 0:
                 d["version"] = "v"
             if memento and allow_cluster and draw(st.integers(0, 3)) == 0:
@@ -474,6 +516,8 @@ def program_strategy(max_fns=6, two_modules=True, allow_hidden=True, allow_expli
                     elif form == 1:
                         call["form"] = "clone"
                 body = {"e": "add", "a": body, "b": call}
+            if ffdef.get(n) and draw(st.integers(0, 2)) > 0:
+                body = {"e": "add", "a": body, "b": {"e": "pfn"}}
             if n == "f0" and tiny and varnames and (value_heavy or draw(st.booleans())):
                 # the root reads every variable: value-hashed entities with equal values in one closure
                 for vn in varnames:
@@ -485,7 +529,7 @@ def program_strategy(max_fns=6, two_modules=True, allow_hidden=True, allow_expli
         order = draw(st.permutations(range(len(defs))))
         ordered = [defs[i] for i in order]
         ordered.sort(key=lambda d: 1 if d["k"] in ("alias", "wrapper") else 0)
-        return {"pkg": "vpk", "modules": modules, "defs": ordered}
+        return {"pkg": "vpk", "modules": modules, "defs": fix_order(None, ordered)}
 
     return prog()
 
@@ -506,6 +550,8 @@ def features(prog):
             f.add("kwonly-default")
         if d.get("version") is not None:
             f.add("explicit-version")
+        if d.get("fdef"):
+            f.add("fn-default")
         if not d["memento"]:
             f.add("plain-helper")
         for e in exprs_of(d):
@@ -523,6 +569,8 @@ def features(prog):
                 f.add("call-via-clone")
     if len(prog["modules"]) > 1:
         f.add("two-modules")
+    if any(d["k"] == "var" and d["vtype"] == "dictset" for d in prog["defs"]):
+        f.add("dict-from-set")
     if any(d["k"] in ("alias", "wrapper") for d in prog["defs"]):
         f.add("alias-or-wrapper")
     return sorted(f)
@@ -545,7 +593,7 @@ def render_cells(prog):
     for mod in prog["modules"]:
         others = [m for m in prog["modules"] if m != mod]
         cells.append([mod, HEADER % "".join("from . import %s\n" % o for o in others)])
-    for d in prog["defs"]:
+    for d in fix_order(prog, prog["defs"]):
         if not d.get("late"):
             cells.append([d["mod"], render_def(prog, d)])
         elif d["late"] == "placeholder":
